@@ -189,6 +189,29 @@ func ruleCountOnce() check.Rule {
 						scan(sl.Body, k)
 					}
 				}
+				// instrumentation never branches on the state of the destination: what is measured must not depend on
+				// whether downstream has just terminated
+				if sc.Dest != nil {
+					nb := 0
+					ast.Inspect(sc.Lit.Body, func(n ast.Node) bool {
+						ifs, ok := n.(*ast.IfStmt)
+						if !ok {
+							return true
+						}
+						mentions := false
+						ast.Inspect(ifs.Cond, func(y ast.Node) bool {
+							if id, ok := y.(*ast.Ident); ok && objOf(info, id) == types.Object(sc.Dest) {
+								mentions = true
+							}
+							return !mentions
+						})
+						if mentions {
+							nb++
+							c.Violation(fmt.Sprintf("%s/branches-on-destination#%d", sc, nb), ifs.Pos(), "the instrumentation branches on the state of its destination: the notification that makes downstream terminate is forwarded and counted but its measurement is skipped, so the exported series disagree with each other")
+						}
+						return true
+					})
+				}
 				c.Inc("metric_updates", len(mcs))
 				for i, x := range mcs {
 					key := fmt.Sprintf("%s/metric#%d-%s", sc, i+1, x.name)
@@ -667,7 +690,7 @@ func C19() *check.Property {
 		Title:    "Prometheus instrumentation is transparent and its counters are exact",
 		Patterns: cat(CorePatterns, []string{PromPkg}),
 		Scope:    []string{PromPkg},
-		Rules:    []check.Rule{ruleForwarder(), ruleCountOnce(), ruleMetricsWired(), ruleLicenceArms(), rulePipeArms(), ruleRelease(), ruleNoDowngrade(), ruleStateLevel(), ruleCtxProvenance(), ruleSlotCtxArgument(), ruleCallbackCtxUsed(), ruleDeadContextStore()},
+		Rules:    []check.Rule{ruleForwarder(), ruleCountOnce(), ruleMetricsWired(), ruleLicenceArms(), rulePipeArms(), ruleRelease(), ruleNoDowngrade(), ruleStateLevel(), ruleCtxProvenance(), ruleSlotCtxArgument(), ruleCallbackCtxUsed(), ruleDeadContextStore(), ruleCtxValueAgreement(), ruleNoGlobalState()},
 		Explanation: "Static check on ee/plugins/prometheus (the OpenTelemetry plugin cannot be type-checked offline and is out of reach). FORWARDER proves each instrumentation operator is the identity on notifications and contexts (one upstream site with the subscriber context; " +
 			"each slot forwards exactly once, unconditionally, its own payload with a context derived from the one it received; or the destination itself is handed upstream); with C01-C03 for the core this is transparency. COUNT-ONCE proves each metric update sits in the slot " +
 			"its operator's name says and runs at most once per event, before forwarding for the stand-alone counters. LICENCE-BOTH-ARMS proves the licence is evaluated at subscription time and selects between compositions built from the same operators; " +
@@ -681,6 +704,7 @@ func C19() *check.Property {
 			"zz_verif_controls_c02.go":                       roControl(controlsC02),
 			"zz_verif_controls_c12.go":                       roControl(controlsC12),
 			"zz_verif_controls_c09.go":                       roControl(controlsC09 + controlsC09b),
+			"zz_verif_controls_global.go":                    roControl(controlsGlobal),
 		},
 	}
 }
